@@ -599,7 +599,81 @@ def r10_checkers_see_the_current_sources(ctx):
                                'a violation planted in a file the cache key does not cover is analysed as the program it was BEFORE the edit and accepted. ')
 
 
+def r11_lookahead_is_consumed(ctx):
+    ctx.rule('C08.R11', 'P1 must-pass-through in a hand-written lexer: `RoutePath::parse` (the template parser `verify_path_parameters` checks the fields of a '
+             '`PathParams` struct against) decides escapes and the catch-all marker by looking one character ahead (`peek`). Whenever the peeked '
+             'character MATCHES what was looked for (`{{`, `}}`, `{*`), it is consumed (`next` / `next_if` ..) before the loop reads its next '
+             'character: otherwise the second brace of `{{id}}` is read again as the opening of a parameter, the check finds a field `id` "in the '
+             'template", and the router — for which that segment is literal text — never fills it.')
+    b0 = None
+    for x in ctx.fb.bodies('pavexc'):
+        if not x.is_promoted and x.nid == x.nroot and x.nid.endswith('analyses::route_path::RoutePath::parse'):
+            b0 = x
+    if not ctx.need('C08.R11', 'analyses::route_path::RoutePath::parse', b0):
+        return
+    b = b0
+    defs = Defs(b)
+    PEEKABLE = 'core::iter::adapters::peekable::Peekable'
+    peeks = [(bb, t) for bb, t in b.calls() if strip_generics(callee(t) or '') == PEEKABLE + '::peek']
+    consume = {bb for bb, t in b.calls() if (callee(t) or '').split('::')[-1] in ('next', 'next_if', 'next_if_eq', 'nth', 'advance_by') and t.get('aty') and 'Peekable<' in t['aty'][0]}
+    if not peeks:
+        ctx.ob('C08.R11', 'lookahead-consumed', True, b.loc(), 'RoutePath::parse does not peek: every decision consumes what it looks at', nontrivial=False)
+        return
+    n = 0
+    for pb, pt in peeks:
+        heads = [hb for hb in consume if b.dominates(hb, pb) and hb in b.reachable(b.succ(hb))]
+        if not heads:
+            continue
+        head = sorted(heads)[0]
+        d = pt['dest']['l']
+        whole = forward_derived(b, {d}, defs)
+        matched = []   # (switch block, matched target)
+        for sb in b.reachable(b.succ(pb), avoid=[head]):
+            w = b.term(sb)
+            if not w or w['k'] != 'switch' or 'enum' in w:
+                continue
+            q = op_place(w['d'])
+            if q is None:
+                continue
+            if q['l'] in whole and any(e.startswith('f:') for e in q.get('p', [])):
+                # a switch on the peeked character itself: the explicit values are the characters looked for
+                for v, tg in w['ts']:
+                    matched.append((sb, tg, 'the peeked character is %r' % (chr(int(v)) if str(v).isdigit() and int(v) < 0x110000 else v)))
+            else:
+                # a bool computed from the peeked value by a predicate closure (`is_some_and(|c| c == X)`, `map_or(false, ..)`, `matches!`)
+                sl, locs = backward_slice(b, q['l'], defs)
+                if not (locs & whole) or q['l'] in whole:
+                    continue
+                preds = [nd for c, _, nd in slice_calls(sl) if (c or '').split('::')[-1] in ('is_some_and', 'map_or', 'is_ok_and', 'map', 'filter', 'eq')]
+                if not preds:
+                    continue
+                eq = ne = False
+                for cl in ctx.fb.bodies_of_item('pavexc', b.nroot):
+                    if cl.nid == cl.nroot or cl.is_promoted:
+                        continue
+                    for _, _, st in cl.all_assigns():
+                        if st['rv']['k'] == 'bin' and st['rv']['bop'] == 'Eq':
+                            eq = True
+                        if st['rv']['k'] == 'bin' and st['rv']['bop'] == 'Ne':
+                            ne = True
+                if any((callee(p) or '').endswith('::eq') for p in preds):
+                    eq = True
+                zero = [tg for v, tg in w['ts'] if v == '0']
+                if eq and not ne:
+                    matched.append((sb, w['else'], 'the predicate on the peeked character holds'))
+                elif ne and not eq and zero:
+                    matched.append((sb, zero[0], 'the predicate on the peeked character fails (a `!=` test)'))
+        for sb, tg, what in matched:
+            n += 1
+            free = b.reachable(tg, avoid=(consume - {head}))
+            ok = head not in free
+            ctx.ob('C08.R11', 'lookahead-consumed|bb%d' % sb, ok, b.loc(sb),
+                   'when %s, every path back to the read of the next character consumes it first: %s' % (what, ok))
+    ctx.floor('C08.R11', 'matched-lookahead edges in RoutePath::parse', n, 1)
+
+
 def check(ctx):
+    r11_lookahead_is_consumed(ctx)
     r10_checkers_see_the_current_sources(ctx)
     r1_roster_on_the_way(ctx)
     r2_reports_errors(ctx)
